@@ -5,7 +5,8 @@
   `shangrla/raire/raire.py::compute_raire_assertions` (agap = 0) that the driver executes, for every
   difficulty function `asn` into a type with a lawful total preorder (`DiffOrd.Lawful`), every ballot
   profile, every duplicate-free candidate list of length ≥ 2, every reported winner, every diving hint
-  and every fuel for which the model returns.  Specification vocabulary: `Lemmas/RaireSpec.lean`.
+  and every fuel; `raire_terminates` shows that `raireFuel` iterations always suffice and that no
+  exception exit is reached.  Specification vocabulary: `Lemmas/RaireSpec.lean`.
 -/
 import Shangrla.Lemmas.RaireMain
 import Shangrla.Lemmas.RaireSocial
@@ -116,6 +117,30 @@ theorem raire_no_exception (asn : Nat → Nat → Nat → Nat → D) (C : Contes
     computeRaireAssertions asn C cvrs winner fuel ≠ Res.err e :=
   compute_no_err asn C cvrs winner hC hn fuel e
 
+/-- **Termination and no exception.** The search terminates: with `raireFuel C winner` (or more)
+iterations of the main loop allowed, the model returns a list — it neither runs out of fuel nor reaches
+one of its exception exits. (`raireFuel` is the initial value of a measure that strictly decreases in every
+iteration; it is astronomically larger than what is needed in practice.) -/
+theorem raire_terminates (asn : Nat → Nat → Nat → Nat → D) (C : Contest α) (cvrs : List (Option (Ballot α)))
+    (winner : α) (hC : C.candidates.Nodup) (hn : 2 ≤ C.candidates.length) (fuel : Nat)
+    (hfuel : raireFuel C winner ≤ fuel) : ∃ as, computeRaireAssertions asn C cvrs winner fuel = Res.ok as :=
+  compute_terminates asn C cvrs winner hC hn fuel hfuel
+
+/-- **C04 in one statement** (total correctness): for enough fuel the generator returns a list `as`; every
+member is a true assertion with exactly the tallies it reports; if `as` is non-empty it excludes every
+alternative winner; and `as` is empty exactly when no set of true assertions does. -/
+theorem raire_correct (asn : Nat → Nat → Nat → Nat → D) (C : Contest α) (cvrs : List (Option (Ballot α)))
+    (winner : α) (hC : C.candidates.Nodup) (hn : 2 ≤ C.candidates.length) (fuel : Nat)
+    (hfuel : raireFuel C winner ≤ fuel) :
+    ∃ as, computeRaireAssertions asn C cvrs winner fuel = Res.ok as ∧
+      (∀ a ∈ as, holds cvrs a) ∧
+      (as ≠ [] → ∀ π, Alt C.candidates winner π → ∃ a ∈ as, contradicts a π) ∧
+      (as = [] ↔ ¬ ∃ S : List (Assertion α D), (∀ a ∈ S, Fam asn C cvrs a) ∧ Sufficient C.candidates winner S) := by
+  obtain ⟨as, h⟩ := raire_terminates asn C cvrs winner hC hn fuel hfuel
+  exact ⟨as, h, fun a ha => (raire_true asn C cvrs winner hC hn fuel as h a ha).1,
+    raire_sufficient asn C cvrs winner hC hn fuel as h,
+    raire_empty_iff asn C cvrs winner hC hn fuel as h⟩
+
 /-- the subsumption tests are sound (each of the four NEB branches and the NEN suffix test): an
 assertion that subsumes `o` contradicts every order ending in a tail `o` was recorded to rule out -/
 theorem subsumes_sound (cands : List α) (f o : Assertion α D) (hg : Good cands f)
@@ -164,6 +189,8 @@ example : ∃ as, computeRaireAssertions asnEx CEx cvrsEx 1 100 = Res.ok as ∧ 
     have hs : summary (computeRaireAssertions asnEx CEx cvrsEx 1 100) ≠ none := by
       intro h0; cases h0
     rw [h] at hs; exact absurd rfl hs
+-- the fuel bound of `raire_terminates` for this contest
+example : raireFuel CEx 1 = 113 := by rfl
 -- an alternative order exists and a possible IRV count exists (hypotheses of `wrong_winner_empty`)
 example : Alt CEx.candidates 0 [2, 0, 1] := ⟨by decide, [2, 0], 1, rfl, by decide⟩
 
